@@ -95,6 +95,16 @@ def first_only(rep, fb):
     rep.minimum('R02.11', n_uses, 6, 'begin()/front() uses of completion / target / ancestors in LargeMicroStep::step')
 
 
+_CG = {}
+
+
+def callgraph_of(fb):
+    if id(fb) not in _CG:
+        from .. import cg
+        _CG[id(fb)] = cg.CallGraph(fb)
+    return _CG[id(fb)]
+
+
 def comparator_keys(rep, fb):
     import re
     cls = 'uscxml::LargeMicroStep'
@@ -182,8 +192,19 @@ def run(rep, tier):
         # R02.1
         writers = sk.config_writers()
         rep.minimum('R02.1', len(writers), 3, 'functions writing the configuration in ' + eng)
+        cgr = callgraph_of(fb)
         for w, hit in sorted(writers.items()):
-            rep.check(w in ALLOWED_WRITERS, 'R02.1', '%s|%s' % (eng, w), locstr(list(hit.values())[0]), '%s::%s writes %s' % (eng, w, sorted(hit)))
+            ok_w = w in ALLOWED_WRITERS
+            via = ''
+            if not ok_w:
+                # a helper extracted from an allowed writer: non-virtual and called from nowhere else than allowed writers of this class
+                wf = [x for x in fb.funcs.values() if x.rec == cls and x.q.split('::')[-1] == w]
+                if wf and not wf[0].d.get('virtual') and not wf[0].d.get('overrides'):
+                    callers = {fb.funcs[m].q for m in cgr.callers.get(wf[0].m, ())}
+                    if callers and all(c.startswith(cls + '::') and c.split('::')[-1] in ALLOWED_WRITERS for c in callers):
+                        ok_w = True
+                        via = ' (helper called only from %s)' % sorted(c.split('::')[-1] for c in callers)
+            rep.check(ok_w, 'R02.1', '%s|%s' % (eng, w), locstr(list(hit.values())[0]), '%s::%s writes %s%s' % (eng, w, sorted(hit), via))
         # inside step(): every configuration write is a classified CFG:insert / CFG:erase event (enter / exit phase)
         cfg_events = {nid for nid, lab in sk.ev.items() if lab.startswith('CFG:')}
         rep.minimum('R02.1', len(cfg_events), 2, 'configuration updates in step() of ' + eng)
